@@ -25,8 +25,10 @@ impl StructType {
 }
 
 impl Hash for StructType {
+    // Must not depend on the iteration order of the map: equal struct types have to hash
+    // equally (like `MultiType`, only the number of fields is hashed).
     fn hash<H: std::hash::Hasher>(&self, state: &mut H) {
-        self.0.keys().collect::<Box<[&Arc<str>]>>().hash(state)
+        self.0.len().hash(state)
     }
 }
 
